@@ -54,6 +54,11 @@ def line_vectors(ver, prefix, m, metric):
         else:
             mm[metric] = v
         out.append((v, V.spell(prefix, mm)))
+        if T.ND_EQUIV.get(ver, {}).get(metric) == v:
+            # the metric left out altogether sits where its equivalent value sits on the line
+            mm2 = dict(mm)
+            del mm2[metric]
+            out.append((v + "=absent", V.spell(prefix, mm2)))
     return out
 
 
